@@ -715,7 +715,7 @@ class ModelHist(Engine):
     def gen_vocab(self, rw):
         types, objs = gen_types(rw)
         tnames = [t for t, _ in types]
-        fluents = gen_fluents(rw, types, rw.randint(4, 7), kinds=("bool", "bool", "int", "real", "user", "uint", "breal"))
+        fluents = gen_fluents(rw, types, rw.randint(4, 7), kinds=("bool", "bool", "int", "real", "user", "uint", "breal", "fbreal"))
         fluents[0]["type"] = ["bool"]
         fluents[1]["type"] = ["int", 0, 5]
         fluents[2]["type"] = ["user", "T"]
@@ -797,6 +797,12 @@ class ModelHist(Engine):
             c = [["bool", False], ["o", objs[0][0]]]
             if t[2] is not None:
                 c.append(["real", str(Fraction(t[2]) + Fraction(7, 2))])
+                # the integer next to the bound on the outside
+                c.append(["int", int(Fraction(t[2])) + 1])
+                c.append(["int", int(Fraction(t[2])) + 1])
+            if t[1] is not None:
+                lo = Fraction(t[1])
+                c.append(["int", (lo.numerator // lo.denominator) - (1 if lo.denominator == 1 else 0)])
             return r.choice(c), "value outside a real type"
         # user type: an object of an unrelated type, or of a strict supertype
         bad = [o for o, ot in objs if not subtype_of(tmap, ot, t[1])]
@@ -870,7 +876,7 @@ class ModelHist(Engine):
                     params = [["x", ["user", ro.choice(tn)]]] if ro.random() < 0.5 else []
                     op = {"op": "add_task", "name": name, "params": params}
                     if faulty and tasks:
-                        op["name"], op["faulty"] = ro.choice(sorted(tasks)), "duplicate"
+                        op["name"], op["faulty"] = ro.choice(sorted(tasks) + [t for t, _ in world["types"]]), "duplicate"
                     else:
                         tasks[name] = params
                     ops.append(op)
@@ -980,7 +986,11 @@ class ModelHist(Engine):
                 g.params = []
                 op = {"op": "add_action", "action": dict(ad)}
                 if faulty and actions:
-                    op["action"] = dict(ad, name=ro.choice(sorted(actions)))
+                    # a name already used: by an action, or by a user type / fluent / object of the world (refused
+                    # only if that element is in the problem by now, which is for the replica to say)
+                    pool = sorted(actions) + [t for t, _ in world["types"]] * 2 + [f["name"] for f in added_fl[:2]] \
+                        + list(added_obj[:2])
+                    op["action"] = dict(ad, name=ro.choice(pool))
                     op["faulty"] = "duplicate"
                 else:
                     actions[name] = ad
@@ -1204,7 +1214,8 @@ class ModelHist(Engine):
             if r < 0.12 and (free or faulty):
                 op = new_agent() if free else {"op": "add_agent", "name": an, "fluents": [], "actions": []}
                 if faulty:
-                    op = {"op": "add_agent", "name": ro.choice(sorted(agents)), "fluents": [], "actions": [], "faulty": "duplicate"}
+                    op = {"op": "add_agent", "name": ro.choice(sorted(agents) + [t for t, _ in world["types"]]), "fluents": [],
+                          "actions": [], "faulty": "duplicate"}
                 ops.append(op)
             elif r < 0.22 and free:
                 fd = free.pop(0)
@@ -1505,7 +1516,7 @@ class ModelHist(Engine):
             timing = ["gstart", ro.randint(1, 3)]
         return {"engine": self.name, "mode": "perm", "world": world, "container": container, "params": params,
                 "timing": timing, "multiset": multiset, "perm_seed": ro.randint(0, 10**6), "n_perms": ro.randint(1, 5),
-                "ops": later}
+                "clone_after": ro.randrange(max(1, len(multiset))) if ro.random() < 0.3 else None, "ops": later}
 
     def fresh_container(self, W, script, tag):
         c = script["container"]
@@ -1580,7 +1591,14 @@ class ModelHist(Engine):
         try:
             for pi, perm in enumerate(perms):
                 cont = self.fresh_container(W, script, f"_{pi}")
-                outs = [self.insert(W, cont, ms[j], timing) for j in perm]
+                outs = []
+                for pos, j in enumerate(perm):
+                    outs.append(self.insert(W, cont, ms[j], timing))
+                    if script.get("clone_after") == pos:
+                        # the container is replaced by its clone at the same point of every order: "every action"
+                        # includes one obtained by clone(), whose bookkeeping must judge like the original's
+                        cont = cont.clone()
+                        ctx.probe("cloned-between-insertions")
                 ctx.ops += len(outs)
                 verdict = any(o == "conflict" for o in outs)
                 verdicts.append((perm, verdict, outs))
@@ -1610,6 +1628,8 @@ class ModelHist(Engine):
             if o != "ok":
                 ctx.fail("C24.shadow-accepts", f"shadow container rejected an insertion the real one accepted: "
                          f"{json.dumps(ins)[:300]} -> {o}", cls="shadow-" + o)
+        if script.get("clone_after") is not None:
+            shadow = shadow.clone()
         rejected_before = any(o != "ok" for o in verdicts[0][2]) if verdicts else False
         judged_after_reject = 0
         for i, ins in enumerate(script["ops"]):
